@@ -795,7 +795,9 @@ def run(tier):
         # (D) character level: literals by value, spelling variants, Ref ids, spec/FilterLex.tla
         fstats, frejs, fcases, _ = filterlex.run(rep, work, hs, tier, rng)
         rep.extra['character_level'] = fstats
-        if fstats.get('judged', 0) < 0.85 * len(fcases) or fstats.get('judged_nontrivial', 0) < len(fcases) // 4:
+        # (a rejected case is a judged case: the guard is about cases the specification could not judge at all)
+        if fstats.get('judged', 0) + fstats.get('rejected', 0) < 0.85 * len(fcases) or \
+                fstats.get('judged_nontrivial', 0) + fstats.get('rejected', 0) < len(fcases) // 4:
             raise MachineryError('character-level cases mostly unjudged: %r' % (fstats,))
         fstats['binding_selftest_rejected'] = filterlex.selftest(rep, work, fcases)
         for c in fcases:
